@@ -206,8 +206,8 @@ func c09Tab(thorough bool) *c09Table {
 				return c09Case{"bin", m, "short varint " + note}
 			})
 		}
-		// inflated claims followed by K real payload bytes (K around the decoder's chunk sizes)
-		ks := []int{1, 4095, 4096, 4097, 8192, 8193, 70000}
+		// inflated claims followed by K real payload bytes (K around the decoder's chunk sizes, and 1 and 3 MiB: growth that is not geometric shows in the cumulative allocation)
+		ks := []int{1, 4095, 4096, 4097, 8192, 8193, 70000, 1 << 20, 3 << 20}
 		heads := [][]byte{
 			append(append([]byte(nil), txid32(5)...), 1, 0, 0, 0),                                // Input: outpoint, then script length
 			{1, 0, 0, 0, 0, 0, 0, 0},                                                             // Output: value, then script length
